@@ -21,6 +21,7 @@ import (
 	"testing"
 
 	"github.com/zeromicro/go-zero/core/jsonx"
+	"github.com/zeromicro/go-zero/internal/encoding"
 )
 
 type c17wCase struct {
@@ -28,17 +29,71 @@ type c17wCase struct {
 	Type  []C17Field `json:"type"`
 	JSON  string     `json:"json"`
 	JSON2 string     `json:"json2"`
+	YAML  string     `json:"yaml"` // with TOML: interleave the two steps of the loaders with another load
+	TOML  string     `json:"toml"`
+}
+
+type c17wRes struct {
+	Verdict string `json:"verdict"`
+	Err     string `json:"err,omitempty"`
+	Val     any    `json:"val,omitempty"`
+}
+
+func c17wLoad(rt reflect.Type, call func(target any) error) (res c17wRes) {
+	target := reflect.New(rt)
+	defer func() {
+		if p := recover(); p != nil {
+			res = c17wRes{Verdict: "panic", Err: fmt.Sprint(p)}
+		}
+	}()
+	if err := call(target.Interface()); err != nil {
+		return c17wRes{Verdict: "error", Err: err.Error()}
+	}
+	if C17Shared(target.Elem()) {
+		return c17wRes{Verdict: "shared", Val: C17Dump(target.Elem())}
+	}
+	return c17wRes{Verdict: "ok", Val: C17Dump(target.Elem())}
+}
+
+// the OTHER load that runs between the two steps of the load under test
+type c17Other struct {
+	Name  string            `json:"name"`
+	Port  int               `json:"port"`
+	Items map[string]string `json:"items,optional"`
+}
+
+const c17OtherYAML = "name: the-other-configuration-the-other-configuration\nport: 65535\nitems:\n  k1: vvvvvvvvvvvvvvvvvvvvvvvvvvvvvvvvvvvvvvvvvvvvvvvvvvvvvvvvvvvvvvvv\n  k2: wwwwwwwwwwwwwwwwwwwwwwwwwwwwwwwwwwwwwwwwwwwwwwwwwwwwwwwwwwwwwwww\n"
+const c17OtherTOML = "name = \"the-other-configuration-the-other-configuration\"\nport = 65535\n[items]\nk1 = \"vvvvvvvvvvvvvvvvvvvvvvvvvvvvvvvvvvvvvvvvvvvvvvvvvvvvvvvvvvvvvvvv\"\nk2 = \"wwwwwwwwwwwwwwwwwwwwwwwwwwwwwwwwwwwwwwwwwwwwwwwwwwwwwwwwwwwwwwww\"\n"
+
+// LoadFromYamlBytes / LoadFromTomlBytes are "convert, then LoadFromJsonBytes".  [seq]: the loader
+// as it is.  [inter]: its two steps with a complete other load (both formats) in between — what a
+// concurrent load does to it.  The two must agree.
+func c17Interleave(rt reflect.Type, text string, convert func([]byte) ([]byte, error),
+	loader func([]byte, any) error) [2]c17wRes {
+	seq := c17wLoad(rt, func(t any) error { return loader([]byte(text), t) })
+	inter := c17wLoad(rt, func(t any) error {
+		b, err := convert([]byte(text))
+		if err != nil {
+			return err
+		}
+		var o1, o2 c17Other
+		_ = LoadFromYamlBytes([]byte(c17OtherYAML), &o1)
+		_ = LoadFromTomlBytes([]byte(c17OtherTOML), &o2)
+		return LoadFromJsonBytes(b, t)
+	})
+	return [2]c17wRes{seq, inter}
 }
 
 type c17wOut struct {
-	ID      int    `json:"id"`
-	Fail    string `json:"fail,omitempty"`
-	TDesc   string `json:"tdesc,omitempty"`
-	InfoErr string `json:"infoerr,omitempty"`
-	Info    any    `json:"info,omitempty"`
-	LC      string `json:"lc,omitempty"`
-	LC2     string `json:"lc2,omitempty"`
-	LCErr   string `json:"lcerr,omitempty"`
+	ID      int                   `json:"id"`
+	Fail    string                `json:"fail,omitempty"`
+	TDesc   string                `json:"tdesc,omitempty"`
+	InfoErr string                `json:"infoerr,omitempty"`
+	Info    any                   `json:"info,omitempty"`
+	LC      string                `json:"lc,omitempty"`
+	LC2     string                `json:"lc2,omitempty"`
+	LCErr   string                `json:"lcerr,omitempty"`
+	Inter   map[string][2]c17wRes `json:"inter,omitempty"`
 }
 
 func c17DumpInfo(fi *fieldInfo) any {
@@ -126,6 +181,12 @@ func c17wRun(c c17wCase) (o c17wOut) {
 		return
 	}
 	o.TDesc = C17Describe(rt)
+	if c.YAML != "" || c.TOML != "" {
+		o.Inter = map[string][2]c17wRes{
+			"yaml": c17Interleave(rt, c.YAML, encoding.YamlToJson, LoadFromYamlBytes),
+			"toml": c17Interleave(rt, c.TOML, encoding.TomlToJson, LoadFromTomlBytes),
+		}
+	}
 	// LoadFromJsonBytes calls buildFieldsInfo(reflect.TypeOf(v), "") with v a pointer to the struct
 	info, err := buildFieldsInfo(reflect.PointerTo(rt), "")
 	if err != nil {
